@@ -13,19 +13,19 @@ import (
 
 // idxEngine enumerates panic-capable instructions and discharges them (DESIGN.md 2.2).
 type idxEngine struct {
-	c       *Ctx
-	eff     *Effects
-	provers map[*ssa.Function]*prover
-	tis     map[*ssa.Function]*termIndex
-	fieldLB map[*types.Var]*fieldLBState
-	resLB   map[*ssa.Function]*resLBState
-	mono    map[*types.Var]*bool
+	c        *Ctx
+	eff      *Effects
+	provers  map[*ssa.Function]*prover
+	tis      map[*ssa.Function]*termIndex
+	fieldLB  map[*types.Var]*fieldLBState
+	resLB    map[*ssa.Function]*resLBState
+	mono     map[*types.Var]*bool
 	requires map[*ssa.Function][]*requireClause
 	invOK    map[*types.Var]bool
 	fills    map[*ssa.Function]fillSummary
 	nondec   map[*types.Var]bool
 	immut    map[*types.Var]bool
-	Obls    []*idxOb
+	Obls     []*idxOb
 }
 
 type fieldLBState struct {
@@ -327,7 +327,6 @@ func (ix *idxEngine) invariantHolds(inv structInv) bool {
 	ix.invOK[inv.Slice] = ok
 	return ok
 }
-
 
 // ---- call summaries ---------------------------------------------------------------
 
